@@ -563,6 +563,9 @@ func (l *Layout) ServedFiles(fileName string, off int64) (payloads [][]byte, evI
 	if !ok {
 		return
 	}
+	if fileName == "" {
+		fileName = l.Files[0]
+	}
 	cur := l.FileIndex(fileName)
 	artificial := 0
 	for i := range payloads {
@@ -583,6 +586,9 @@ func (l *Layout) ServedFiles(fileName string, off int64) (payloads [][]byte, evI
 // master sends for a dump request at (file, off), with, for each, the index of
 // the laid-out event it carries (-1 for artificial rotate / format description).
 func (l *Layout) Served(fileName string, off int64) (payloads [][]byte, evIdx []int, ok bool) {
+	if fileName == "" {
+		fileName = l.Files[0] // an empty name asks for the master's first binlog file
+	}
 	file := l.FileIndex(fileName)
 	if file < 0 {
 		return nil, nil, false
